@@ -34,7 +34,7 @@ from vlib.core import Broken, TRUSTED_COMMON, REPO
 IMPORTS = "ALists AKernels AKExpr ACovFunc ACaseTac"
 
 
-def build(ctx, pid_targets=("thm/ACaseTac.vo",)):
+def build(ctx, pid_targets=("thm/ACaseTac.vo", "gen/ACovFunc.vo")):
     """translate + prove; returns True when the generated model is available for execution in Coq"""
     try:
         gen, funcs = pyscalar.translate_kernels(REPO)
@@ -46,7 +46,7 @@ def build(ctx, pid_targets=("thm/ACaseTac.vo",)):
     if not ok:
         # a proof broke: the model itself may still compile, so that the correspondence can run
         with core.Lock():
-            rc, out = core.coq_make(list(pid_targets) + ["gen/ACovFunc.vo"])
+            rc, out = core.coq_make(list(pid_targets))
         return rc == 0
     return True
 
